@@ -602,6 +602,9 @@ class Server(BaseComponent):
             socks = [sock]
 
         for sock in socks:
+            if sock is None or (sock != self._sock and sock not in self._clients):
+                # closed already: do not create a buffer entry for it
+                continue
             if not self._buffers[sock]:
                 self._close(sock)
             elif sock not in self._closeq:
